@@ -24,24 +24,24 @@ Proof. intros s s' H. apply H. Qed.
 
 (* WF only mentions `lock` in w_lock; states that differ in the cache fields below *)
 Lemma WF_set_imm_true : forall s, WF s -> WF (set_k_imm true s).
-Proof. destruct_st. intros [[? ? ? ? ? ? ? ? ? ? ? ?] ? ?]. wf_tac. Qed.
+Proof. destruct_st. intros [[? ? ? ? ? ? ? ? ? ? ? ? ?] ? ?]. wf_tac. Qed.
 Lemma Ext_set_imm : forall b s, Ext s (set_k_imm b s).
 Proof. intros b. destruct_st. ext_tac. constructor. Qed.
 
 Lemma WF_set_pending : forall v s, WF s -> WF (set_k_pending v s).
-Proof. intros v. destruct_st. intros [[? ? ? ? ? ? ? ? ? ? ? ?] ? ?]. wf_tac. Qed.
+Proof. intros v. destruct_st. intros [[? ? ? ? ? ? ? ? ? ? ? ? ?] ? ?]. wf_tac. Qed.
 Lemma Ext_set_pending : forall v s, Ext s (set_k_pending v s).
 Proof. intros v. destruct_st. ext_tac. constructor. Qed.
 Lemma WF_flush_mark : forall s, WF s -> WF (flush_mark s).
-Proof. destruct_st. intros [[? ? ? ? ? ? ? ? ? ? ? ?] ? ?]. unfold flush_mark. wf_tac. Qed.
+Proof. destruct_st. intros [[? ? ? ? ? ? ? ? ? ? ? ? ?] ? ?]. unfold flush_mark. wf_tac. Qed.
 Lemma Ext_flush_mark : forall s, Ext s (flush_mark s).
 Proof. destruct_st. unfold flush_mark. ext_tac. constructor. Qed.
 Lemma WF_set_saved : forall b s, WF s -> WF (set_k_saved b s).
-Proof. intros b. destruct_st. intros [[? ? ? ? ? ? ? ? ? ? ? ?] ? ?]. wf_tac. Qed.
+Proof. intros b. destruct_st. intros [[? ? ? ? ? ? ? ? ? ? ? ? ?] ? ?]. wf_tac. Qed.
 Lemma Ext_set_saved : forall b s, Ext s (set_k_saved b s).
 Proof. intros b. destruct_st. ext_tac. constructor. Qed.
 Lemma WF_set_imm_back : forall b s, WF s -> k_intxn s = false -> (k_reg s = true -> shape_imm (sess s) = true -> b = true) -> WF (set_k_imm b s).
-Proof. intros b. destruct_st. intros [[? ? ? ? ? ? ? ? ? ? ? ?] ? ?] ? ?. norm. wf_tac. Qed.
+Proof. intros b. destruct_st. intros [[? ? ? ? ? ? ? ? ? ? ? ? ?] ? ?] ? ?. norm. wf_tac. Qed.
 
 Section S.
 Variable oracle : nat -> bool.
@@ -50,7 +50,7 @@ Lemma get_cache_spec : forall s, WF s ->
   exists s', get_cache s = (Ok, s') /\ WF s' /\ Ext s s' /\ k_reg s' = true /\ (k_reg s = true -> s' = s) /\
              (k_reg s = false -> k_has s' = false /\ k_imm s' = shape_imm (sess s) /\ k_pending s' = 0 /\ k_forupd s' = 0).
 Proof.
-  destruct_st. intros [[? ? ? ? ? ? ? ? ? ? ? ?] ? ?]. unfold get_cache. norm. destruct k_reg; norm; simp_hyps.
+  destruct_st. intros [[? ? ? ? ? ? ? ? ? ? ? ? ?] ? ?]. unfold get_cache. norm. destruct k_reg; norm; simp_hyps.
   - eexists. split; [reflexivity|]. split; [wf_tac|]. split; [ext_tac; constructor|]. repeat split; auto; discriminate.
   - eexists. split; [reflexivity|]. split; [wf_tac; finish|]. split; [ext_tac; try constructor; finish|]. norm. repeat split; auto; discriminate.
 Qed.
@@ -86,9 +86,9 @@ Proof.
   intros s Hwf Hreg. use (prepare_nf_spec s Hwf Hreg); unfold KF in *; fin.
 Qed.
 
-Lemma exec_with_spec : forall P prep start q, PrepSpec P prep -> (q = SSelect \/ (q = SWrite /\ start = true)) ->
-  forall s, WF s ->
-  match exec_with oracle prep start q s with
+Lemma exec_with_spec : forall P prep start many q, PrepSpec P prep ->
+  forall s, WF s -> (q = SSelect \/ (q = SWrite /\ (start = true \/ (k_reg s = true /\ k_imm s = true)))) ->
+  match exec_with oracle prep start many q s with
   | (Blocked, _) => other s = true
   | (r, s') => WF s' /\ Ext s s' /\ k_reg s' = true /\
       (k_reg s = true -> k_forupd s' = k_forupd s /\ P (k_pending s) (k_pending s') /\ (k_imm s = true -> k_imm s' = true) /\
@@ -98,8 +98,8 @@ Lemma exec_with_spec : forall P prep start q, PrepSpec P prep -> (q = SSelect \/
       match r with Ok => k_has s' = true /\ (k_imm s' = true -> k_intxn s' = true) | _ => True end
   end.
 Proof.
-  intros P prep start q Hprep Hq s Hwf.
-  change (exec_with oracle prep start q) with (get_cache ;; when start (upd (set_k_imm true)) ;; prep ;; exec_tail oracle q).
+  intros P prep start many q Hprep s Hwf Hq.
+  change (exec_with oracle prep start many q) with (get_cache ;; when start (upd (set_k_imm true)) ;; prep ;; exec_tail oracle many q).
   unfold bind.
   destruct (get_cache_spec s Hwf) as (s1 & -> & Hwf1 & Hx1 & Hreg1 & Hsame & Hfresh).
   set (s2 := if start then set_k_imm true s1 else s1).
@@ -117,8 +117,10 @@ Proof.
   clear Hsame Hfresh.
   use (Hprep s2 Hwf2 Hreg2).
   - destruct H as (Hwf3 & Hx3 & Hreg3 & Himm3 & Hfu3 & HP3 & Hhas3 & Hhas3' & Hin3).
-    assert (Hq' : q = SSelect \/ (q = SWrite /\ k_imm s0 = true)) by (destruct Hq as [?|[? ?]]; auto).
-    use (exec_tail_spec oracle q s0 Hwf3 Hq' Hhas3' Hreg3 Hin3).
+    assert (Hq' : q = SSelect \/ (q = SWrite /\ k_imm s0 = true)).
+    { destruct Hq as [?|[? [?|[Hr Hi]]]]; auto; right; split; auto; apply Himm3.
+      destruct Hcase as [[_ ->]|[Hr' _]]; [auto | congruence]. }
+    use (exec_tail_spec oracle many q s0 Hwf3 Hq' Hhas3' Hreg3 Hin3).
     1-2: destruct H as (Hwf4 & Hx4 & (Hk1 & Hk2 & Hk3 & Hk4) & Hhas4 & Hin4);
          assert (Hx04 : Ext s s3) by eauto using Ext_trans;
          destruct Hcase as [[Hr ->]|(Hr & Hp0 & Hf0)]; rewrite Hr; rw_fields;
@@ -144,9 +146,9 @@ Lemma flush_loop_spec : forall n s, WF s -> k_reg s = true -> k_imm s = true ->
   end.
 Proof.
   induction n as [|n IH]; intros s Hwf Hreg Himm.
-  - cbn [flush_loop]. unfold upd. splits; auto using WF_set_saved, Ext_set_saved; try (cbn; lia).
+  - cbn. splits; auto using Ext_refl; try lia.
   - cbn [flush_loop]. unfold bind, try_except.
-    use (exec_with_spec eq (prepare_nf oracle) true SWrite prepare_nf_prep (or_intror (conj eq_refl eq_refl)) s Hwf).
+    use (exec_with_spec eq (prepare_nf oracle) true false SWrite prepare_nf_prep s Hwf (or_intror (conj eq_refl (or_introl eq_refl)))).
     + destruct H as (Hwf1 & Hx1 & Hreg1 & Hfr & _ & Himm1 & Hhas1 & Hin1).
       destruct (Hfr Hreg) as (Hfu1 & Hp1 & _ & Hh1).
       unfold upd at 1.
@@ -174,6 +176,99 @@ Proof.
     + exact H.
 Qed.
 
+Lemma WF_clear_flush : forall s, WF s -> WF (set_k_mrem false (set_k_madd false (set_k_saved false s))).
+Proof. destruct_st. intros [[? ? ? ? ? ? ? ? ? ? ? ? ?] ? ?]. wf_tac. Qed.
+Lemma Ext_clear_flush : forall s, Ext s (set_k_mrem false (set_k_madd false (set_k_saved false s))).
+Proof. destruct_st. ext_tac. constructor. Qed.
+
+(* one executemany on the link table inside flush (cache.immediate is True there) *)
+Lemma exec_m2m_spec : forall s, WF s -> k_reg s = true -> k_imm s = true ->
+  match exec_m2m oracle s with
+  | (Blocked, _) => other s = true
+  | (r, s') => WF s' /\ Ext s s' /\ k_reg s' = true /\ k_imm s' = true /\ k_forupd s' = k_forupd s /\
+               k_pending s' = k_pending s /\ (k_has s = true -> k_has s' = true) /\
+               match r with Ok => k_has s' = true /\ k_intxn s' = true | _ => True end
+  end.
+Proof.
+  intros s Hwf Hreg Himm. unfold exec_m2m.
+  use (exec_with_spec eq (prepare_nf oracle) false true SWrite prepare_nf_prep s Hwf
+         (or_intror (conj eq_refl (or_intror (conj Hreg Himm))))).
+  - destruct H as (? & ? & ? & Hfr & _ & _ & ? & Hin). destruct (Hfr Hreg) as (? & ? & Hi & ?). splits; auto.
+  - destruct H as (? & ? & ? & Hfr & _ & _ & _). destruct (Hfr Hreg) as (? & ? & Hi & ?). splits; auto.
+  - exact H.
+Qed.
+
+Definition FlushPost (s : st) (r : res) (s' : st) : Prop :=
+  WF s' /\ Ext s s' /\ k_reg s' = true /\ k_imm s' = true /\ k_forupd s' = k_forupd s /\ (k_has s = true -> k_has s' = true) /\
+  match r with
+  | Ok => k_pending s' = 0 /\ (k_intxn s = true -> k_intxn s' = true) /\ (modified s = true -> k_intxn s' = true /\ k_has s' = true)
+  | _ => True
+  end.
+
+Lemma flush_body_spec : forall s, WF s -> k_reg s = true -> k_imm s = true ->
+  match flush_body oracle s with
+  | (Blocked, _) => other s = true
+  | (r, s') => FlushPost s r s'
+  end.
+Proof.
+  intros s Hwf Hreg Himm. unfold flush_body. unfold bind at 1.
+  (* step 1: removed links *)
+  assert (H1 : match when (k_mrem s) (exec_m2m oracle) s with
+               | (Blocked, _) => other s = true
+               | (r, s1) => WF s1 /\ Ext s s1 /\ k_reg s1 = true /\ k_imm s1 = true /\ k_forupd s1 = k_forupd s /\
+                            k_pending s1 = k_pending s /\ (k_has s = true -> k_has s1 = true) /\
+                            match r with Ok => (k_intxn s = true -> k_intxn s1 = true) /\ (k_mrem s = true -> k_intxn s1 = true /\ k_has s1 = true) /\
+                                               (k_mrem s = false -> s1 = s)
+                                    | _ => True end
+               end).
+  { destruct (k_mrem s) eqn:Hm; cbn [when].
+    - use (exec_m2m_spec s Hwf Hreg Himm); dest; splits; auto; discriminate.
+    - unfold ret. splits; auto using Ext_refl; discriminate. }
+  destruct (when (k_mrem s) (exec_m2m oracle) s) as [r1 s1]. destruct r1; [| unfold FlushPost; dest; splits; auto | exact H1].
+  destruct H1 as (Hwf1 & Hx1 & Hreg1 & Himm1 & Hfu1 & Hp1 & Hh1 & Hi1 & Hm1 & Hsame1).
+  unfold bind at 1.
+  use (flush_loop_spec (k_pending s1) s1 Hwf1 Hreg1 Himm1).
+  3: { rewrite (Ext_other _ _ Hx1) in H. exact H. }
+  2: { unfold FlushPost. dest. splits; eauto using Ext_trans; try congruence. }
+  destruct H as (Hwf2 & Hx2 & Hreg2 & Himm2 & Hfu2 & Hh2 & Hp2 & Hi2 & Hpos2).
+  assert (Hx02 : Ext s s0) by eauto using Ext_trans.
+  unfold bind at 1.
+  assert (H3 : match when (k_madd s0) (exec_m2m oracle) s0 with
+               | (Blocked, _) => other s0 = true
+               | (r, s3) => WF s3 /\ Ext s0 s3 /\ k_reg s3 = true /\ k_imm s3 = true /\ k_forupd s3 = k_forupd s0 /\
+                            k_pending s3 = k_pending s0 /\ (k_has s0 = true -> k_has s3 = true) /\
+                            match r with Ok => (k_intxn s0 = true -> k_intxn s3 = true) /\ (k_madd s0 = true -> k_intxn s3 = true /\ k_has s3 = true)
+                                    | _ => True end
+               end).
+  { destruct (k_madd s0) eqn:Hm; cbn [when].
+    - use (exec_m2m_spec s0 Hwf2 Hreg2 Himm2); dest; splits; auto.
+    - unfold ret. splits; auto using Ext_refl; discriminate. }
+  destruct (when (k_madd s0) (exec_m2m oracle) s0) as [r3 s3]. destruct r3.
+  - destruct H3 as (Hwf3 & Hx3 & Hreg3 & Himm3 & Hfu3 & Hp3 & Hh3 & Hi3 & Hm3).
+    unfold upd. unfold FlushPost.
+    set (s4 := set_k_mrem false (set_k_madd false (set_k_saved false s3))).
+    assert (Hs4 : k_reg s4 = k_reg s3 /\ k_imm s4 = k_imm s3 /\ k_forupd s4 = k_forupd s3 /\ k_has s4 = k_has s3 /\
+                  k_pending s4 = k_pending s3 /\ k_intxn s4 = k_intxn s3) by (repeat split).
+    destruct Hs4 as (A1 & A2 & A3 & A4 & A5 & A6).
+    assert (Hwf4 : WF s4) by (apply WF_clear_flush; exact Hwf3).
+    assert (Hx4 : Ext s3 s4) by apply Ext_clear_flush.
+    clearbody s4.
+    splits; eauto using Ext_trans; try congruence.
+    + rewrite A5, Hp3, Hp2. lia.
+    + intros Hmod. rewrite A6, A4.
+      assert (Hmid : k_intxn s0 = true /\ k_has s0 = true \/ (k_mrem s = false /\ k_pending s = 0 /\ k_madd s = true /\ s0 = s1 /\ s1 = s)).
+      { unfold modified in Hmod. destruct (k_mrem s) eqn:Em.
+        - destruct (Hm1 eq_refl) as (? & ?). left. split; auto.
+        - specialize (Hsame1 eq_refl). destruct (k_pending s) eqn:Ep.
+          + cbn in Hmod. right. subst s1. rewrite Ep in E. cbn in E. inversion E. repeat split; auto; congruence.
+          + left. apply Hpos2. rewrite Hp1. lia. }
+      destruct Hmid as [(Hi0 & Hh0) | (_ & _ & Hma & -> & ->)].
+      * split; auto.
+      * apply Hm3. exact Hma.
+  - unfold FlushPost. destruct H3 as (? & ? & ? & ? & ? & ? & ? & _). splits; eauto using Ext_trans; try congruence.
+  - rewrite (Ext_other _ _ Hx02) in H3. exact H3.
+Qed.
+
 Lemma cache_flush_spec : forall s, WF s -> k_reg s = true ->
   match cache_flush oracle s with
   | (Blocked, _) => other s = true
@@ -181,7 +276,7 @@ Lemma cache_flush_spec : forall s, WF s -> k_reg s = true ->
                (k_imm s = true -> k_imm s' = true) /\ (k_has s = true -> k_has s' = true) /\
                match r with
                | Ok => k_pending s' = 0 /\ (k_intxn s = true -> k_intxn s' = true) /\
-                       (0 < k_pending s -> k_intxn s' = true /\ k_has s' = true)
+                       (modified s = true -> k_intxn s' = true /\ k_has s' = true)
                | _ => True
                end
   end.
@@ -191,14 +286,14 @@ Proof.
   unfold bind, try_finally. unfold upd at 1.
   set (s1 := set_k_imm true s).
   assert (Hs1 : k_forupd s1 = k_forupd s /\ k_pending s1 = k_pending s /\ k_has s1 = k_has s /\ k_intxn s1 = k_intxn s /\
-                k_reg s1 = k_reg s /\ k_imm s1 = true) by (repeat split).
-  destruct Hs1 as (Ha & Hb & Hc & Hd & He & Hf).
+                k_reg s1 = k_reg s /\ k_imm s1 = true /\ modified s1 = modified s) by (repeat split).
+  destruct Hs1 as (Ha & Hb & Hc & Hd & He & Hf & Hg).
   assert (Hwf1 : WF s1) by (apply WF_set_imm_true; exact Hwf).
   assert (Hx1 : Ext s s1) by apply Ext_set_imm.
   assert (Hsimm : k_reg s = true -> shape_imm (sess s) = true -> k_imm s = true) by (apply Hwf).
   clearbody s1.
   assert (Hreg1 : k_reg s1 = true) by congruence.
-  use (flush_loop_spec (k_pending s1) s1 Hwf1 Hreg1 Hf).
+  use (flush_body_spec s1 Hwf1 Hreg1 Hf).
   3: { rewrite (Ext_other _ _ Hx1) in H. exact H. }
   all: destruct H as (Hwf2 & Hx2 & Hreg2 & Himm2 & Hfu2 & Hhas2 & Hrest);
        assert (Hsess : sess s0 = sess s) by (rewrite (x_sess _ _ Hx2), (x_sess _ _ Hx1); reflexivity);
@@ -207,7 +302,7 @@ Proof.
               by (apply WF_set_imm_back; auto; intros; apply Hsimm; congruence);
             assert (Hx3 : Ext s0 (set_k_imm (k_imm s) s0)) by apply Ext_set_imm).
   all: dest; splits; eauto using Ext_trans; cbn [set_k_imm k_forupd k_pending k_has k_intxn k_reg k_imm sess]; try congruence; try lia.
-  all: try (intros; rewrite <- ?Hb in *; intuition (try congruence; try lia)).
+  all: try (intros; rewrite <- ?Hg, <- ?Hd in *; intuition (try congruence; try lia)).
 Qed.
 
 Lemma prepare_prep : PrepSpec (fun _ _ => True) (prepare oracle).
@@ -216,9 +311,8 @@ Proof.
   use (prepare_nf_spec s Hwf Hreg).
   - destruct H as (Hwf1 & Hx1 & (Hk1 & Hk2 & Hk3 & Hk4) & Hhas & Hhas1 & Hin1).
     assert (Hreg1 : k_reg s0 = true) by congruence.
-    destruct (0 <? k_pending s0) eqn:Hp; cbn [when].
-    + apply Nat.ltb_lt in Hp.
-      use (cache_flush_spec s0 Hwf1 Hreg1).
+    destruct (modified s0) eqn:Hp; cbn [when].
+    + use (cache_flush_spec s0 Hwf1 Hreg1).
       * destruct H as (Hwf2 & Hx2 & Hreg2 & Hfu2 & Himm2 & Hhas2 & Hp2 & Hin2 & Hboth).
         destruct (Hboth Hp). splits; eauto using Ext_trans; try congruence; try (intros; apply Himm2; congruence).
       * destruct H as (Hwf2 & Hx2 & Hreg2 & Hfu2 & Himm2 & Hhas2 & _).
@@ -230,5 +324,5 @@ Proof.
   - exact H.
 Qed.
 
-Definition exec_spec start q := exec_with_spec (fun _ _ => True) (prepare oracle) start q prepare_prep.
+Definition exec_spec start q := exec_with_spec (fun _ _ => True) (prepare oracle) start false q prepare_prep.
 End S.
